@@ -51,6 +51,7 @@ type World struct {
 	direct    map[string]*directSummary
 	nonnil    map[string]bool
 	guards    map[string]string
+	atomics   map[string]string
 	Errors    []string
 }
 
@@ -359,4 +360,31 @@ func (w *World) guardOf(key string) string {
 		}
 	}
 	return w.guards[key]
+}
+
+// atomicClass: "" (none), "atomic" (sync/atomic access only), "atomic rmw" (additionally: never written by a
+// plain atomic Store — only Add / CompareAndSwap / Swap may change it, so that read-modify-write is one step).
+func (w *World) atomicClass(key string) string {
+	if w.atomics == nil {
+		w.atomics = map[string]string{}
+		for _, ts := range w.TypeSpec {
+			pkg := w.Pkgs[ts.PkgPath]
+			if pkg == nil {
+				continue
+			}
+			for f, cls := range ts.Fields {
+				fs := strings.Fields(cls)
+				for i, x := range fs {
+					if x == "atomic" {
+						c := "atomic"
+						if i+1 < len(fs) && fs[i+1] == "rmw" {
+							c = "atomic rmw"
+						}
+						w.atomics["F:"+sanitize(pkg.Name+"."+ts.Name)+"."+f] = c
+					}
+				}
+			}
+		}
+	}
+	return w.atomics[key]
 }
